@@ -256,6 +256,31 @@ theorem replacer_on_strings_resolves (T D U : List Str) (g f : Str) (hD : ∀ s 
     (fun s hs => simple_noSlash s (hall s (normComps_subset false _ s hs)))]
   exact rebased_url_resolves_identically_partial T D U g f (fun c hc => (hD c hc).1) (fun c hc => (hU c hc).1) hgn hfn
 
+/-- **T19.2 on strings [W2]** — main sheet at `scheme://host/T…/m`, `@import "D…/g"`, `url(U…/f)` in the imported
+sheet, every segment made of unreserved characters and `%` (`.` and `..` allowed in `D` and `U`; `g`, `f` names),
+scheme and host well formed (`WFOrigin`, e.g. `http://h`):
+`urljoin(main, Replacer(href)(url)) = urljoin(urljoin(main, href), url)`, through the models of `urlsplit`,
+`urlunsplit`, `urlparse`, `urljoin`, `posixpath.split/join/normpath` and `quote` — also when `..` climbs above the root. -/
+theorem rebased_url_resolves_identically_on_strings (sch net : Str) (w : WFOrigin sch net) (Tdir D U : List Str)
+    (m g f : Str) (hT : ∀ s ∈ Tdir, SimpleSeg s) (hm : SimpleSeg m) (hD : ∀ s ∈ D, SimpleSeg s) (hg : SimpleSeg g)
+    (hgn : Normal g) (hU : ∀ s ∈ U, SimpleSeg s) (hf : SimpleSeg f) (hfn : Normal f) :
+    ∃ r sheetUrl,
+      replacer (joinWith cSlash (D ++ [g])) (joinWith cSlash (U ++ [f])) = .ok r ∧
+      urljoin (originStr sch net ++ cSlash :: joinWith cSlash (Tdir ++ [m])) (joinWith cSlash (D ++ [g])) = .ok sheetUrl ∧
+      urljoin (originStr sch net ++ cSlash :: joinWith cSlash (Tdir ++ [m])) r
+        = urljoin sheetUrl (joinWith cSlash (U ++ [f])) :=
+  rebase_resolves_strings sch net w Tdir D U m g f hT hm hD hg hgn hU hf hfn
+
+/-- non-vacuity: `http://h` is a well-formed origin -/
+example : WFOrigin (CssVerif.Proto.cps "http") (CssVerif.Proto.cps "h") where
+  sch_ne := by decide
+  sch_alpha := by intro c h; simp [CssVerif.Proto.cps] at h; subst h; decide
+  sch_chars := by decide
+  sch_rel := by decide
+  sch_net := by decide
+  net_ne := by decide
+  net_chars := by decide
+
 example : SimpleSeg (CssVerif.Proto.cps "x%41.png") := by
   refine ⟨by decide, ?_⟩
   decide
